@@ -19,6 +19,12 @@ def c18_4(rep):
     for q, f in sorted(ix.funcs.items()):
         if f.mod not in SEMANTIC_MODULES:
             continue
+        for c in ast.walk(f.node):
+            if isinstance(c, ast.Call) and isinstance(c.func, ast.Attribute) and c.func.attr in ("TAB", "NEWLINE", "SPACE", "COMMENT") and not (isinstance(c.func.value, ast.Name) and c.func.value.id in ("np", "blackbirdParser")):
+                rep.bad(R, ix.site(f, c), "semantic code does not inspect layout tokens", "`%s`: the program would depend on how a line is indented / terminated" % " ".join(u(c).split())[:60],
+                        key="%s|layout token %s" % (q, c.func.attr))
+            if isinstance(c, ast.Compare) and any(isinstance(x, ast.Constant) and isinstance(x.value, str) and x.value and x.value.strip(" \t\r\n") == "" for x in [c.left] + c.comparators):
+                rep.bad(R, ix.site(f, c), "semantic code does not compare token text with white space", "`%s`" % " ".join(u(c).split())[:60], key="%s|ws compare" % q)
         fn = f.node
         tainted = set()
         changed = True
@@ -61,6 +67,11 @@ def looks_like_tree(e, tainted):
 
 
 def pos_expr(e, tainted):
+    """the value of e may depend on a token position: some sub-expression reads a position attribute or a tainted local"""
+    return any(pos_atom(x, tainted) for x in ast.walk(e))
+
+
+def pos_atom(e, tainted):
     if isinstance(e, ast.Attribute) and e.attr in POS_ATTRS and looks_like_tree(e.value, tainted):
         return True
     if isinstance(e, ast.Name) and e.id in tainted:
